@@ -682,10 +682,12 @@ def run(ctx: Ctx, rs: RuleSet, tier: str):
                     'BasicTraversal.begin' in unparse(c.func) and c.args and
                     unparse(c.args[0]) == gname for c in ctx.calls(f))
     texts = [unparse(f.node)]
-    for c in ctx.calls(f):
-      h = ctx.p.funcs.get(ctx.p.resolve(c.func, f) or '')
-      if h is not None and h.module is f.module and not h.is_lambda:
-        texts.append(unparse(h.node))
+    # functions of the module that f calls or hands on (map / partial)
+    for x in ast.walk(f.node):
+      if isinstance(x, ast.Name) and isinstance(x.ctx, ast.Load):
+        h = f.module.funcs.get(x.id)
+        if h is not None and not h.is_lambda and x.id not in f.local_names():
+          texts.append(unparse(h.node))
     uses_path = any('_path_str(' in t for t in texts)
     rs.check(ok and rec and basic and uses_path, rule, q,
              'leaves are yielded with state.current_path; non-leaves recurse '
